@@ -598,3 +598,112 @@ Proof.
   destruct (e_ver e =? ts); [reflexivity|]. cbn [better].
   apply level_cands_scan_none.
 Qed.
+
+(* ======================= E. crash cuts of DropAll ======================= *)
+
+Lemma recover_persist d : recover (persist_of d) = d.
+Proof.
+  unfold recover, persist_of. cbn [p_wal p_levels]. rewrite rev_app_distr. cbn [rev app].
+  rewrite rev_involutive. now destruct d.
+Qed.
+
+(* F15: the tree [k@2 in the memtable, k@1 in an L0 table]; dropAll's first persistence
+   effect removes the memtable's WAL; a crash right after it re-opens with k@1 — neither
+   the pre-drop value (k@2) nor nothing *)
+Theorem crash_refuted :
+  exists d cut k ts now,
+    let r := read_at (crash_after (persist_of d) dropall_events cut) k ts now in
+    r <> read_at d k ts now /\ r <> None.
+Proof.
+  exists (mkLsm [mkE [107] 2 0 0 0 [118; 50]] [] [[mkT 1 [mkE [107] 1 0 0 0 [118; 49]]]; []]), 1%nat, [107], 9, 0.
+  split; vm_compute; discriminate.
+Qed.
+
+Definition mem_entries (d : lsm) : list entry := l_mt d ++ concat (rev (l_imm d)).
+Definition table_entries (d : lsm) : list entry := concat (levels_srcs 0 (l_levels d)).
+
+Lemma all_entries_split d : all_entries d = mem_entries d ++ table_entries d.
+Proof.
+  unfold all_entries, all_srcs, mem_entries, table_entries. cbn [concat].
+  now rewrite concat_app, app_assoc.
+Qed.
+
+(* versions in the memtables are not older than versions of the same key in the tables
+   (true when commit timestamps grow: normal mode, monotone managed mode) *)
+Definition mem_newer (d : lsm) : Prop :=
+  forall m t, In m (mem_entries d) -> In t (table_entries d) -> e_key m = e_key t -> e_ver t <= e_ver m.
+
+Definition emptied (d : lsm) : lsm := mkLsm (l_mt d) (l_imm d) (map (fun _ => []) (l_levels d)).
+
+Lemma emptied_wf d : lsm_wf d -> lsm_wf (emptied d).
+Proof.
+  unfold lsm_wf, emptied. cbn [l_mt l_imm l_levels]. intros (A & B & C). split; [exact A|split; [exact B|]].
+  destruct (l_levels d) as [|l0 rest]; cbn [map]; auto. split; [constructor|].
+  clear. induction rest as [|x r IH]; cbn [map]; constructor; auto.
+  split; [constructor|constructor].
+Qed.
+
+Lemma emptied_entries d : all_entries (emptied d) = mem_entries d.
+Proof.
+  rewrite all_entries_split. unfold table_entries, mem_entries, emptied. cbn [l_mt l_imm l_levels].
+  now rewrite levels_srcs_empty, app_nil_r.
+Qed.
+
+Lemma emptied_get d k ts :
+  lsm_wf d -> mem_newer d ->
+  db_get (emptied d) k ts = db_get d k ts \/ db_get (emptied d) k ts = None.
+Proof.
+  intros Hwf Hm. rewrite (db_get_newest (emptied d)) by now apply emptied_wf.
+  rewrite (db_get_newest d) by assumption. rewrite emptied_entries, all_entries_split, newest_app.
+  destruct (newest (mem_entries d) k ts) as [m|] eqn:Em; [left|now right].
+  destruct (newest (table_entries d) k ts) as [t|] eqn:Et; [|reflexivity].
+  apply newest_some in Em, Et. destruct Em as (A1 & A2 & _). destruct Et as (B1 & B2 & _).
+  cbn [better]. assert (L: (e_ver m <? e_ver t) = false).
+  { apply N.ltb_ge. apply Hm; auto. congruence. }
+  now rewrite L.
+Qed.
+
+Lemma read_at_cases d d' k ts now :
+  db_get d' k ts = db_get d k ts \/ db_get d' k ts = None ->
+  read_at d' k ts now = read_at d k ts now \/ read_at d' k ts now = None.
+Proof. unfold read_at. intros [->| ->]; auto. Qed.
+
+Lemma empty_tree_get (ls : list (list table)) m k ts :
+  m = [] \/ m = [[]] ->
+  read_at (recover (mkP m (map (fun _ => []) ls))) k ts 0 = None
+  /\ forall now, read_at (recover (mkP m (map (fun _ => []) ls))) k ts now = None.
+Proof.
+  intros [->| ->]; unfold recover, read_at, db_get, cands, mem_cands; cbn [p_wal p_levels rev app l_mt l_imm l_levels map src_get seek_ge];
+    cbn [scan]; rewrite level_cands_scan_none; auto.
+Qed.
+
+(* with the MANIFEST written first (the reordered variant), every crash cut of DropAll
+   leaves each key with its pre-drop value or absent — C29_crash_partial *)
+Theorem crash_fixed_partial d cut k ts now :
+  lsm_wf d -> mem_newer d ->
+  let r := read_at (crash_after (persist_of d) dropall_events_fixed cut) k ts now in
+  r = read_at d k ts now \/ r = None.
+Proof.
+  intros Hwf Hm. unfold crash_after, dropall_events_fixed.
+  destruct cut as [|[|[|cut]]]; cbn [firstn fold_left papply].
+  - left. now rewrite recover_persist.
+  - change (mkP (p_wal (persist_of d)) (map (fun _ => []) (p_levels (persist_of d)))) with (persist_of (emptied d)).
+    rewrite recover_persist. apply read_at_cases. now apply emptied_get.
+  - right. cbn [p_wal p_levels persist_of]. apply (empty_tree_get (l_levels d) [] k ts). now left.
+  - right. replace (firstn cut []) with (@nil pevent) by now destruct cut. cbn [fold_left papply p_wal p_levels persist_of app].
+    apply (empty_tree_get (l_levels d) [[]] k ts). now right.
+Qed.
+
+(* the same order of effects as coded, but cut AFTER the MANIFEST drop or BEFORE the WAL
+   removal, is harmless as well: only the window between the two is exposed *)
+Theorem crash_coded_outside_window d cut k ts now :
+  cut <> 1%nat -> cut <> 2%nat ->
+  let r := read_at (crash_after (persist_of d) dropall_events cut) k ts now in
+  r = read_at d k ts now \/ r = None.
+Proof.
+  intros H1 H2. unfold crash_after, dropall_events.
+  destruct cut as [|[|[|cut]]]; try congruence; cbn [firstn fold_left papply].
+  - left. now rewrite recover_persist.
+  - right. replace (firstn cut []) with (@nil pevent) by now destruct cut. cbn [fold_left papply p_wal p_levels persist_of app].
+    apply (empty_tree_get (l_levels d) [[]] k ts). now right.
+Qed.
